@@ -1,24 +1,32 @@
 (* Prop_C05.v -- C05: Max-Sum without damping is exact on acyclic factor graphs.
 
-   FULL STATEMENTS of the property over the model (M_MaxSum.v); they are NOT proved here:
+   SYNCHRONOUS Max-Sum: PROVED in full ([maxsum_tree_exact], last block of theorems below): for every
+   well-formed DCOP whose factor graph is a forest of height <= H ([forest_ok_b G H]) with a unique optimum a,
+   min or max, stability 0, damping 0, any start_messages, any arity/domain sizes, and EVERY schedule of the
+   asynchronous network: once every computation that has a neighbour has completed more than H cycles, the
+   selected assignment is a.  The proof chain, each link a theorem of this file:
+     maxsum_graph_ok / maxsum_algo_ok   the instance meets the contract of the mixin model, so C08 applies;
+     maxsum_refines_rounds              every run refines the functional lock-step system [ms_rounds]
+                                        (from C08's sync_round_inputs + a simulation invariant);
+     maxsum_suppression_lifted          the SAME_COUNT cut-off never changes what a receiver holds;
+     maxsum_tree_messages               message on an edge = exact min/max-marginal of the subtree behind it
+                                        up to an additive constant (induction on the height);
+     maxsum_tree_select                 the lock-step selection is the optimum after H+1 rounds.
+   [forest_ok_b] is the unrolling form of "forest"; the correspondence run checks on every generated graph that it
+   agrees with [forest_b] (leaf elimination) and with the harness's own union-find/BFS computation of the height.
 
-     maxsum_tree_exact :
-       forall P G a sched, (p_damp P == 0)%Q -> forest_b G = true -> unique_optimum (p_max P) G a ->
-         let cf := fst (run (maxsum_proto P G) sched) in
-         rounds_done P G cf (length (all_nodes G) + 3) = true -> selected_sync G cf = map Some a.
+   NOT true of the code as it is (faithful model), hence refuted with witnesses instead of proved:
      amaxsum_tree_exact :
        forall P G a sched, (p_damp P == 0)%Q -> forest_b G = true -> unique_optimum (p_max P) G a ->
          let cf := fst (run (amaxsum_proto P G) sched) in
-         quiescent G cf = true -> selected_async G cf = map Some a.
-
-   Both are FALSE of the faithful model as stated (default parameters): see the three [_refuted] theorems.
-   With stability = 0, every variable in a constraint or without initial value (and, for amaxsum,
-   start_messages = all) they are believed true (correspondence + oracle runs) but the tree induction
-   (message on an edge = exact marginal of the subtree behind it) is not mechanised.  What IS proved, for all
-   inputs and sizes, are the local statements that induction is made of ([_partial]), the harmlessness
-   of the exact-repeat suppression, and the all-schedule characterisation of the start_messages=leafs deadlock. *)
+         quiescent G cf = true -> selected_async G cf = map Some a.        (default start_messages deadlocks)
+     the synchronous statement with the default stability 0.1               (cut-off freezes a changing message)
+     a constraint-less variable with an initial_value                       (never re-selects)
+   A-Max-Sum with start_messages=all and stability 0 is believed exact (correspondence + oracle) but its
+   schedule-dependent message order is not covered by the lock-step argument; only the local lemmas and the
+   all-schedule deadlock characterisation are proved for it. *)
 From Coq Require Import QArith.
-From PyDcop Require Import Base Net M_SyncMixin P_SyncMixin M_MaxSum P_MaxSum P_MaxSum2.
+From PyDcop Require Import Base Net M_SyncMixin P_SyncMixin M_MaxSum P_MaxSum P_MaxSum2 P_MaxSum3 P_MaxSum4 P_MaxSum5.
 Local Open Scope Z_scope.
 
 (* factor -> variable message: entry d is the optimum, over all assignments of the factor's other variables,
@@ -98,6 +106,52 @@ Theorem maxsum_refines_rounds : forall P G, wf_dcop G ->
      st_equiv (ast (w_st (nodes cf n))) (fst (ms_rounds P G (cur (w_st (nodes cf n))) n))).
 Proof. exact maxsum_refines_rounds_l. Qed.
 
+(* ---- the SAME_COUNT suppression lifted to runs (stability 0, damping 0): after absorbing the messages of
+   round k+1, computation b holds for every neighbour a exactly the table a computed in its cycle k
+   ([T P G k a b]: costs_for_factor / factor_costs_for_var on a's costs dict of that cycle) -- whether a posted
+   it or the cut-off withheld it as an exact repeat of what b already holds *)
+Theorem maxsum_suppression_lifted : forall P G, wf_dcop G -> (p_stab P == 0)%Q -> (p_damp P == 0)%Q ->
+  forall k a b, In b (nbrs G a) -> zlookup a (costs_at P G (S k) b) = Some (T P G k a b).
+Proof. exact view_spec. Qed.
+
+(* ---- messages on a tree.  [SN G h a b] = the computations met when unrolling the factor graph behind the
+   directed edge a->b to depth h, [low G h a b] = that unrolling is closed (the part of the graph behind a->b
+   is a tree of height <= h), [SC G h a b s] = the cost of that part under assignment s, [xv G a b] = the
+   variable end of the edge.  In every lock-step round k >= h-1 the table a computes for b is, entry by
+   entry, the exact optimum of SC over all valid assignments that give the edge's variable that value
+   ([is_margf]: a bound for all of them, attained by one), up to the additive constant KK (the normalisation
+   averages subtracted in the subtree); min and max *)
+Theorem maxsum_tree_messages : forall P G, wf_dcop G ->
+  (forall x vd, In (x, vd) (d_vars G) -> (0 < v_dom vd)%nat) -> (p_stab P == 0)%Q -> (p_damp P == 0)%Q ->
+  forall h a b k, In b (nbrs G a) -> low G h a b = true ->
+    NoDup (SN G h a b) -> ~ In b (SN G h a b) -> (h <= S k)%nat ->
+    List.length (T P G k a b) = dom_of G (xv G a b) /\
+    is_margf P G (xv G a b) (dom_of G (xv G a b))
+             (fun d => tget (T P G k a b) d + KK P G h k a b)%Q (SC G h a b).
+Proof. exact tree_messages_l. Qed.
+
+(* ---- exactness of the lock-step system: [forest_ok_b G H] = seen from every variable the unrolling to depth
+   H+1 is closed and meets no computation twice (the factor graph is a forest of height <= H).  With a unique
+   optimum a, after more than H rounds every variable has selected its value in a (a variable without any
+   constraint does so at start, provided it has no initial_value: see isolated_variable_initial_value_refuted) *)
+Theorem maxsum_tree_select : forall P G, wf_dcop G -> (p_stab P == 0)%Q -> (p_damp P == 0)%Q ->
+  forall a H, unique_optimum (p_max P) G a -> forest_ok_b G H = true ->
+  (forall x vd, In (x, vd) (d_vars G) -> nbrs G x = [] -> v_init vd = None) ->
+  forall x k, In x (var_ids G) -> (nbrs G x = [] \/ (S H <= k)%nat) ->
+    current_value (fst (ms_rounds P G k x)) = Some (val_of G a x).
+Proof. exact tree_select_l. Qed.
+
+(* ---- THE PROPERTY, synchronous Max-Sum, every schedule of the asynchronous network, min and max, any
+   start_messages: on a forest with a unique optimum, stability 0 and damping 0, once every computation that has
+   a neighbour has completed more than H cycles the selected assignment is the optimum.  (The async variant and
+   the default stability are refuted below.) *)
+Theorem maxsum_tree_exact : forall P G, wf_dcop G -> (p_stab P == 0)%Q -> (p_damp P == 0)%Q ->
+  forall a H sched, unique_optimum (p_max P) G a -> forest_ok_b G H = true ->
+  (forall x vd, In (x, vd) (d_vars G) -> nbrs G x = [] -> v_init vd = None) ->
+  let cf := fst (run (maxsum_proto P G) sched) in
+  rounds_done P G cf (S H) = true -> selected_sync G cf = map Some a.
+Proof. exact maxsum_tree_exact_l. Qed.
+
 (* refutations of the full statements on the code as it is (known findings) *)
 Theorem amaxsum_tree_exact_refuted :
   exists G a sched,
@@ -137,3 +191,10 @@ Example amaxsum_chain3_exact :
   unique_optimum false W_chain3 [1; 1; 0]%nat /\
   quiescent W_chain3 cf = true /\ selected_async W_chain3 cf = map Some [1; 1; 0]%nat.
 Proof. exact amaxsum_chain3_exact_start_all. Qed.
+
+(* the hypotheses of maxsum_tree_exact hold on the 4-variable chain (height 6 seen from the end variables) *)
+Example maxsum_tree_exact_hypotheses :
+  wf_dcop_b W_chain4 = true /\ forest_ok_b W_chain4 6 = true /\ forest_ok_b W_chain4 5 = false /\
+  (p_stab (par 0 0) == 0)%Q /\ (p_damp (par 0 0) == 0)%Q /\
+  rounds_done (par 0 0) W_chain4 (fst (run (maxsum_proto (par 0 0) W_chain4) (lockstep (all_nodes W_chain4) 14))) 7 = true.
+Proof. vm_compute. repeat split; reflexivity. Qed.
